@@ -253,6 +253,10 @@ def run(ctx):
                           "in %s the temporary `%s` is built by %s - for this element type the braces select the initializer_list constructor: the assigned container holds the source "
                           "(or the list's size and the list) as elements instead of the source's elements" % (f.id[:110], v["name"], c.id[:130]), (f, e.get("ln")), why_ok=c.id[:90])
     ctx.need("R07.11", "temporaries in the instantiated assignment operators", ntmp, 6)
+    # the same question put to the compiler the library is built with (clang and g++ disagree on `T tmp{ v }` for such element types)
+    wg = os.path.join(VERIF, "witness", "tl_C07_gxx.cpp")
+    rg = witness.apply(ctx, lambda t: "R07.11", wg, compiler="g++", label="g++ gnu++17")
+    ctx.need("R07.11", "g++ witness cells", len(rg["tags"]), 7)
     # ---- R07.6: emplace builds the element the way std containers do - direct-initialisation from the forwarded arguments.
     # List-initialisation prefers an initializer_list constructor: emplace_back(3, 'x') on strings would store "\x03x", not "xxx".
     ctx.rule("R07.6", "emplace/emplace_back construct the element by direct-initialisation T(args...); a range insert walks its source exactly once")
